@@ -269,6 +269,13 @@ func (c *conn) handleMutate(in *inEnvelope) error {
 	c.mu.Lock()
 	defer c.mu.Unlock()
 
+	// A mutation is tracked in c.subscriptions under its id until it is done;
+	// overwriting the entry of a live subscription (or of another mutation in
+	// flight) would leave that rerunner running with nobody able to stop it.
+	if _, ok := c.subscriptions[id]; ok {
+		return NewSafeError("duplicate subscription")
+	}
+
 	tags := map[string]string{"url": c.url, "query": mutate.Query, "queryVariables": mustMarshalJson(mutate.Variables), "id": id}
 
 	query, err := Parse(mutate.Query, mutate.Variables)
